@@ -2,6 +2,7 @@
 CONSTANTS NSrc = 7  NLab = 8  Fissile = {1, 2, 4}  MaxLevel = 5  SrcList = {}
 CONSTANT DirScen <- ScenThorough
 ACTION_CONSTRAINT Emit
+CONSTANT IdOf <- IdOf8
 INIT DInit
 NEXT DNext
 CONSTRAINT Bound
